@@ -754,10 +754,8 @@ def r18e(ctx, run):
         raise LookupError("push_num calls in ty_info: %d" % n)
 
 
-def r18g(ctx, run):
-    """type ids identify TYPES: to_type_id evaluated as a state machine on symbolic types - a type keeps its id, and two
-    different types (in particular two instantiations of one generic nominal declaration, which share the declaration's
-    uid) get different ids and their own rows"""
+def tid_machinery(ctx, pbw=64, layout=None):
+    """to_type_id / to_previous_type_id as an interpreter over symbolic types; `layout(ty, what)` answers size/align/stride queries"""
     from symint import SymInterp, Env
     from absint import Obj, Term, Variant, Panic, CannotEstablish
     conv = "codegen/src/convert.rs"
@@ -824,15 +822,34 @@ def r18g(ctx, run):
                 if m == "to_previous_type_id":
                     return self.inline(prev, args, recv=recv)
                 if m in ("size", "align", "stride"):
-                    return 8
+                    return layout(recv, m) if layout else 8
             if m in ("bits",):
-                return 64
+                return pbw
             if m in ("bytes",):
-                return 8
+                return pbw // 8
             if m == "expect" and recv is None:
                 raise Panic("expect on None: %s" % canon(e["a"][0])[:60])
             return super().default_method(recv, m, args, e)
 
+    consts = {}
+    for f, it_ in ctx.syn.items_of("const", conv):
+        v = synq.int_value(it_["e"])
+        if v is not None:
+            consts[it_["name"]] = v
+
+    def make():
+        it = TI(resolver=resolver, macros={"assert": lambda i, e, env: None, "debug": lambda i, e, env: None})
+        it.consts.update(consts)
+        return it
+    return fn, prev, mk_state, make
+
+
+def r18g(ctx, run):
+    """type ids identify TYPES: to_type_id evaluated as a state machine on symbolic types - a type keeps its id, and two
+    different types (in particular two instantiations of one generic nominal declaration, which share the declaration's
+    uid) get different ids and their own rows"""
+    from absint import Obj, Term, Variant, Panic, CannotEstablish
+    fn, prev, mk_state, make = tid_machinery(ctx)
     I64, U16 = Variant("Ty::IInt", {"0": 64}), Variant("Ty::UInt", {"0": 16})
     M = lambda t: [Obj("MemberTy", name=Term("val"), ty=t)]
 
@@ -855,15 +872,9 @@ def r18g(ctx, run):
         ("[]i64 and []u16", Variant("Ty::Slice", {"sub_ty": I64}), Variant("Ty::Slice", {"sub_ty": U16})),
         ("[2]i64 and [3]i64", Variant("Ty::ConcreteArray", {"size": 2, "sub_ty": I64}), Variant("Ty::ConcreteArray", {"size": 3, "sub_ty": I64})),
     ]
-    consts = {}
-    for f, it_ in ctx.syn.items_of("const", conv):
-        v = synq.int_value(it_["e"])
-        if v is not None:
-            consts[it_["name"]] = v
     for desc, A, B in pairs:
         st = mk_state()
-        it = TI(resolver=resolver, macros={"assert": lambda i, e, env: None, "debug": lambda i, e, env: None})
-        it.consts.update(consts)
+        it = make()
         ptr = Term("pointer_ty")
         key = "ids:" + desc
         try:
@@ -910,6 +921,49 @@ def r18h(ctx, run):
         raise LookupError("to_type_id calls in cast_into_memory: %d" % n)
 
 
+def r18i(ctx, run):
+    """the size and alignment a simple type id carries (meta.size_of / align_of just unpack them, R18.b) are the size and alignment the layout
+    pass gives that type: to_type_id is evaluated on every scalar type, the id is unpacked with the writer's own field positions, and the two
+    numbers are compared with calc_single's (evaluated from source, as in R17.a)"""
+    import c17
+    from absint import Panic, CannotEstablish, Term, Variant
+    I64 = Variant("Ty::IInt", {"0": 64})
+    packer = ctx.syn.fn("simple_id_with_align", "codegen/src/convert.rs")
+    shifts, widths = field_layout(packer)
+    for k in ("size", "align", "discriminant"):
+        if shifts.get(k) is None or widths.get(k) is None:
+            raise LookupError("simple_id_with_align: field %s" % k)
+    unpack = lambda v, k: (v >> shifts[k]) & ((1 << widths[k]) - 1)
+    for pbw in (64, 32):
+        def layout(ty, what, pbw=pbw):
+            size, align, sl, el, it = c17.run_calc(ctx, ty, pbw)
+            return {"size": size, "align": align, "stride": size + ((-size) % align)}[what]
+        fn, prev, mk_state, make = tid_machinery(ctx, pbw, layout)
+        for tyv, name, _, _ in c17.scalar_cases(pbw // 8):
+            key = "simple-id-layout:%s@%d" % (name, pbw)
+            # the symbolic element type of the layout cases becomes a concrete one here: the id of a pointer registers its pointee
+            tyv = Variant(tyv.path, {k: (I64 if v == c17.TY("sub") else v) for k, v in tyv.payload.items()})
+            try:
+                tid = make().inline(fn, [mk_state(), Term("pointer_ty")], recv=tyv)
+                size, align = layout(tyv, "size"), layout(tyv, "align")
+            except (Panic, CannotEstablish) as c:
+                if name == "generic fn" and isinstance(c, Panic) and "unreachable" in c.what:
+                    run.exempt(fn.site(), "%s (ptr %d)" % (name, pbw), "an uninstantiated generic function has no type id: to_type_id declares it unreachable")
+                    continue
+                run.finding("to_type_id", key, fn.file, fn.ln, "cannot establish the type id of %s: %s" % (name, getattr(c, "what", c)))
+                continue
+            if not isinstance(tid, int):
+                run.finding("to_type_id", key, fn.file, fn.ln, "the type id of %s is not a number: %s" % (name, tid))
+                continue
+            if unpack(tid, "discriminant") >= 16:
+                run.exempt(fn.site(), "%s (ptr %d): indexed id" % (name, pbw), "its size and alignment are read from the layout rows (R18.d, R18.e), not from the id")
+                continue
+            got = (unpack(tid, "size"), unpack(tid, "align"))
+            run.check(got == (size, align), fn.site(), "%s (ptr %d): id %#x carries size %d align %d = layout" % (name, pbw, tid, size, align), "to_type_id", key, fn.file, fn.ln,
+                      "the type id of %s (pointer width %d) carries size %d and alignment %d, but the layout pass - which every struct offset, array stride and stack slot uses - gives "
+                      "size %s and alignment %s: meta.size_of / align_of would not describe the generated code" % (name, pbw, got[0], got[1], size, align))
+
+
 def rules(ctx):
     return [
         Rule("R18.a", "discriminant constants agree (Rust/capy), simple<16<=indexed, each Ty arm uses its own discriminant and uid generator", 60, r18a),
@@ -919,5 +973,6 @@ def rules(ctx):
         Rule("R18.e", "reflected sizes/aligns/offsets come from codegen's own layout queries", 15, r18e),
         Rule("R18.g", "type ids identify types: to_type_id as a state machine - stable id per type, distinct ids (and rows) for distinct types incl. generic instantiations", 9, r18g),
         Rule("R18.h", "the type id written into an `any` / `type` is the id of the value's declared type (not of a type stripped of its nominal wrappers)", 2, r18h),
+        Rule("R18.i", "simple type ids carry the size and alignment the layout pass computes (to_type_id and calc_single evaluated per scalar type)", 40, r18i),
         Rule("R18.f", "the kind chain K_infos / K_layouts is name-consistent through every table", 70, r18f),
     ]
